@@ -48,7 +48,7 @@ def gen_case(streams, tier):
     g = streams['gen']
     kind = g.choice(['sim', 'fast', 'compiled'] if g.random() < 0.6 else ['sim', 'fast'])
     cfg = gen.make_cfg(nets=(2, 14), names=g.choice(['plain', 'awkward']),
-                       mem_wide_aw=0.0)
+                       mem_wide_aw=0.0, awk_pair_prob=0.3)
     script = gen.gen_script(g, cfg)
     script, stage = gen.maybe_stage(g, script, 0.2, ['sim', 'fast', 'export', 'analysis', 'optimized_copy', 'copy', 'reset'])
     ncyc = streams['inputs'].randint(3, 14)
